@@ -515,6 +515,8 @@ class Bus {
     }
     if (gluePct > 0 && (!enhanced || enhArbAddr == 0xAA) && rng && (int)rng->below(100) < gluePct) glueFollowing(rx0, horizon);
   }
+  int echoGluePct = 0;
+  long echoGlued = 0;
   int gluePct = 0;              // chance (percent) that a SYN reaches the host in one read together with the first symbols of the telegram
                                 // another master starts right after it (serial/USB/network latency: the host cannot arbitrate; on the
                                 // enhanced device only while the adapter has no arbitration request of the host)
@@ -632,21 +634,29 @@ class Bus {
     if (zz == 0xFE) { tr.phase = 5; return; }
     int act = curPeer.cmdAck[std::min(tr.attempt, 1)];
     int64_t t = lastByteTime + SYM;
+    // the echo of the host's last symbol and the reaction of the addressed participant may be handed over in one read (plain device; the echo
+    // then is one symbol time late, which is within the host's send timeout)
+    size_t echoIdx = g.rx.size();
+    bool echoGlue = echoGluePct > 0 && !enhanced && rng && act <= 2 && !g.rx.empty() && (int)rng->below(100) < echoGluePct;
+    auto glueEcho = [&]() { if (echoGlue && echoIdx >= 1 && echoIdx < g.rx.size()) { g.rx[echoIdx - 1].t = g.rx[echoIdx].t; echoGlued++; } };
     if (act == 0) {
       ackMark = g.rx.size();
       emitPeer(t, 0x00);
+      glueEcho();
       if (specIsMaster(zz)) { tr.phase = 5; return; }
       tr.respAttempt = 0;
       sendResponse();
       ackMark = (size_t)-1;
     } else if (act == 1) {
       emitPeer(t, 0xFF);
+      glueEcho();
       tr.attempt++;
       tr.part.clear(); tr.crc = 0; tr.esc = false; tr.phase = 1;
       // the repeated QQ is sent by the host and arrives through trackBus: start with an empty part
       repeatExpected = true;
     } else if (act == 2) {
       emitPeer(t, curPeer.otherSym);
+      glueEcho();
       tr.phase = 5;
     } else if (act == 4) {
       emitSyn(t);
